@@ -60,10 +60,11 @@ fn run(ctx: &RunCtx) -> Report {
     let rawnet = RawNet::new();
     let n = rng.usize(3, 8);
     // storer families
-    let family = rng.below(7);
+    let family = rng.below(8);
     // families 5/6: the smallest 3xx majority (resp. exactly half) answers at once, the rest acknowledge late
     let code56: i64 = if rng.chance(1, 2) { 301 } else { 302 };
     let mut addrs = vec![];
+    let mut reply_plan: Vec<PutReply> = vec![];
     for i in 0..n {
         let addr = SocketAddrV4::new(priv_ip(60 + i), 6881);
         let mut p = Peer::new(rng.id(), addr);
@@ -84,6 +85,20 @@ fn run(ctx: &RunCtx) -> Report {
                     PutReply::Ack
                 }
             }
+            // family 7: the minority code answers first, then the other code from a bare majority, acks late
+            7 if n >= 3 => {
+                let minor = if code56 == 301 { 302 } else { 301 };
+                if i == 0 {
+                    p.delay = rng.range(0, 20) * MS;
+                    PutReply::Error(minor)
+                } else if i <= n / 2 + 1 {
+                    p.delay = rng.range(60, 140) * MS;
+                    PutReply::Error(code56)
+                } else {
+                    p.delay = rng.range(250, 380) * MS;
+                    PutReply::Ack
+                }
+            }
             _ => {
                 if i == 0 {
                     PutReply::Error(if rng.chance(1, 2) { 301 } else { 302 })
@@ -92,6 +107,7 @@ fn run(ctx: &RunCtx) -> Report {
                 }
             }
         };
+        reply_plan.push(p.put_reply.clone());
         rawnet.add(&sim, p);
         addrs.push(addr);
     }
@@ -106,7 +122,7 @@ fn run(ctx: &RunCtx) -> Report {
                 Res::NotMostRecent
             }
         }
-        0 | 4 | 6 => Res::Ok,
+        0 | 4 | 6 | 7 => Res::Ok,
         1 => Res::Cas,
         2 => Res::NotMostRecent,
         _ => Res::Query,
@@ -220,8 +236,8 @@ fn run(ctx: &RunCtx) -> Report {
     // Families 5/6: the verdict depends on who was actually asked to store (a storer whose `get`
     // reply came later than the adaptive request timeout is legitimately left out), so it is
     // computed per store round from the recorded datagrams: 3xx iff count >= recipients / 2 + 1.
-    let (storers_result, storers_result2) = if family == 5 || family == 6 {
-        let rejecting = if family == 5 { n / 2 + 1 } else { n / 2 };
+    let odd_round = std::cell::Cell::new(false);
+    let (storers_result, storers_result2) = if family == 5 || family == 6 || (family == 7 && n >= 3) {
         let mut rounds: Vec<(u64, Vec<usize>)> = vec![];
         sim.with_trace(|tr| {
             for d in tr.iter().filter(|d| d.from_host == Some(writer) && d.t_send >= t0) {
@@ -236,19 +252,27 @@ fn run(ctx: &RunCtx) -> Report {
             }
         });
         let verdict = |r: &Vec<usize>| {
-            let rej = r.iter().filter(|i| **i < rejecting).count();
-            if rej >= r.len() / 2 + 1 {
-                if code56 == 301 {
-                    Res::Cas
-                } else {
-                    Res::NotMostRecent
-                }
+            let c301 = r.iter().filter(|i| matches!(reply_plan[**i], PutReply::Error(301))).count();
+            let c302 = r.iter().filter(|i| matches!(reply_plan[**i], PutReply::Error(302))).count();
+            let half = r.len() / 2 + 1;
+            if c301 >= half {
+                Res::Cas
+            } else if c302 >= half {
+                Res::NotMostRecent
             } else {
                 Res::Ok
             }
         };
         if rounds.iter().any(|r| r.1.len() != n) {
             report.probe("storer_left_out_of_a_store_round", 1);
+        }
+        // a round without a majority and without a single ack ends with "the most common error",
+        // which depends on arrival order: not judged
+        for r in &rounds {
+            let acks = r.1.iter().filter(|i| matches!(reply_plan[**i], PutReply::Ack)).count();
+            if acks == 0 && verdict(&r.1) == Res::Ok {
+                odd_round.set(true);
+            }
         }
         match (rounds.first(), rounds.last()) {
             (Some(a), Some(b)) => (verdict(&a.1), verdict(&b.1)),
@@ -258,6 +282,7 @@ fn run(ctx: &RunCtx) -> Report {
         (storers_result.clone(), storers_result)
     };
 
+    let ambiguous = ambiguous || odd_round.get();
     let what = format!(
         "first: seq {s1}; second: relation={} seq {s2} cas={cas2:?} at +{}ms ({phase}, in_flight={in_flight}); storers family {family} -> {storers_result:?}; results first={r1:?} second={r2:?}",
         ["identical", "lower-seq", "equal-seq-other-value", "higher-seq"][relation as usize],
